@@ -19,6 +19,7 @@
  * `o` (woff) is ONE ghost offset in [0,64) used both for the block offset of (b) and the tail offset
  * of (c); the memcpy model watches exactly buf[o] (see hash_spec.h). */
 #define VERIF_MEMCPY_MODEL
+#define HASH_SPEC_WRITE_CONTRACT
 #include "hash_spec.h"
 #define memcpy verif_memcpy64
 #include "src/secp256k1.c"
@@ -76,46 +77,66 @@ void h_write(void) {
     REACH("write end");
 }
 
-/* Two-write lemma on the real code: write(a); write(b), with a||b = d[0..la+lb) split at la, satisfies
- * the SAME stream postcondition (a),(b),(c) as the single call write(a||b) in h_write - block numbers
- * run on over both calls.  (a)-(c) determine the byte count, the number of blocks, every byte of
- * every delivered block and the tail uniquely, so both ways of writing deliver identical blocks. */
+/* The same lemma as the CONTRACT of hash_spec.h, enforced by DFCC on the real body (unit
+ * C05.sha256_write_contract: --enforce-contract secp256k1_sha256_write), for an arbitrary initial state
+ * of the compression log.  This is the form the lemma harnesses below and hash_finalize.c consume. */
+void h_write_c(void) {
+    INPUT(uint64_t, b0); INPUT(size_t, len); INPUT_ARR(unsigned char, bufc, 64); INPUT_ARR(uint32_t, sc, 8);
+    INPUT(uint64_t, wblk); INPUT(unsigned, woff); INPUT(unsigned, sk);
+    INPUT(uint64_t, c_blocks); INPUT(size_t, c_calls); INPUT(int, cw_hit); INPUT(unsigned char, cw_byte);
+    secp256k1_sha256 h; secp256k1_hash_ctx hc; unsigned char *data; uint64_t blocks0;
+    __CPROVER_assume(len <= MAXLEN);
+    INPUT_BUF(datac, data, len, 64);
+    memcpy(h.s, sc, 32); memcpy(h.buf, bufc, 64); h.bytes = b0;
+    hc.fn_sha256_compression = verif_compress;
+    COMPLOG_RESET(); g_c_blocks = c_blocks; g_c_calls = c_calls; g_cw_hit = cw_hit; g_cw_byte = cw_byte;
+    g_cw_blk = wblk; g_cw_off = woff; g_sk = sk; blocks0 = c_blocks;
+    g_mc_base = (unsigned char *)&h; g_mc_doff = offsetof(secp256k1_sha256, buf) + woff; g_mc_calls = 0;
+    secp256k1_sha256_write(&hc, &h, data, len);
+    if (g_c_calls == c_calls + 2 && wblk == blocks0 + 7 && g_cw_hit == cw_hit + 1) REACH("write contract: two compression calls, watched block 7 of this call");
+    if (g_c_calls == c_calls && len > 0) REACH("write contract: buffered only");
+    REACH("write contract end");
+}
+
+/* Two-write lemma over the contract: write(a); write(b), with a||b = d[0..la+lb) split at la, satisfies
+ * the SAME stream postcondition (a),(b),(c) as a single write(a||b) - block numbers run on over both
+ * calls.  (a)-(c) determine the byte count, the number of blocks, every byte of every delivered block
+ * and the tail uniquely, so both ways of writing deliver identical blocks; by induction this extends to
+ * any number of writes.  Both calls are replaced by the contract proved in C05.sha256_write_contract
+ * (lemma harness in the sense of DESIGN 2.3); what remains is arithmetic on stream positions. */
 void h_write2(void) {
     INPUT(uint64_t, b0); INPUT(size_t, la); INPUT(size_t, lb); INPUT_ARR(unsigned char, tl0, 64);
-    INPUT(uint64_t, wblk); INPUT(unsigned, woff);
+    INPUT(uint64_t, wblk); INPUT(unsigned, woff); INPUT(unsigned, sk);
     secp256k1_sha256 h; secp256k1_hash_ctx hc; unsigned char *d;
-    uint64_t b2, nb, p, q;
+    uint64_t b2, nb, r0;
     __CPROVER_assume(la <= MAXLEN && lb <= MAXLEN);
     __CPROVER_assume(b0 <= UINT64_MAX - la - lb);
-    __CPROVER_assume(woff < 64);
+    __CPROVER_assume(woff < 64 && sk < 8);
     INPUT_BUF(dw, d, la + lb, 64);
     memcpy(h.buf, tl0, 64); h.bytes = b0;
     hc.fn_sha256_compression = verif_compress;
-    COMPLOG_RESET(); g_cw_blk = wblk; g_cw_off = woff;
-    g_mc_base = (unsigned char *)&h; g_mc_doff = offsetof(secp256k1_sha256, buf) + woff; g_mc_calls = 0;
+    COMPLOG_RESET(); g_cw_blk = wblk; g_cw_off = woff; g_sk = sk; g_mc_calls = 0;
 
     secp256k1_sha256_write(&hc, &h, d, la);
     secp256k1_sha256_write(&hc, &h, d + la, lb);
 
-    b2 = b0 + la + lb; nb = b2 / 64 - b0 / 64;
+    b2 = b0 + la + lb; nb = b2 / 64 - b0 / 64; r0 = b0 % 64;
     __CPROVER_assert(h.bytes == b2, "C05 sha256_write split lemma (a): byte count as for one write of a||b");
     __CPROVER_assert(g_c_blocks == nb, "C05 sha256_write split lemma (b): number of blocks as for one write of a||b");
     if (wblk < nb) {
-        p = (b0 / 64 + wblk) * 64 + woff;
         __CPROVER_assert(g_cw_hit == 1, "C05 sha256_write split lemma (b): every complete block of the stream is delivered exactly once");
-        if (p < b0) __CPROVER_assert(g_cw_byte == tl0[woff], "C05 sha256_write split lemma (b): old tail bytes delivered at their offset");
-        else __CPROVER_assert(g_cw_byte == d[p - b0], "C05 sha256_write split lemma (b): delivered blocks are those of the stream tail||a||b");
+        if (wblk * 64 + woff < r0) __CPROVER_assert(g_cw_byte == tl0[woff], "C05 sha256_write split lemma (b): old tail bytes delivered at their offset");
+        else __CPROVER_assert(g_cw_byte == d[wblk * 64 + woff - r0], "C05 sha256_write split lemma (b): delivered blocks are those of the stream tail||a||b");
     } else {
         __CPROVER_assert(g_cw_hit == 0, "C05 sha256_write split lemma (b): no further block is delivered");
     }
     if (woff < b2 % 64) {
-        q = (b2 / 64) * 64 + woff;
-        if (q < b0) __CPROVER_assert(h.buf[woff] == tl0[woff], "C05 sha256_write split lemma (c): old tail stays when no block completes");
-        else __CPROVER_assert(h.buf[woff] == d[q - b0], "C05 sha256_write split lemma (c): tail as for one write of a||b");
+        if (nb * 64 + woff < r0) __CPROVER_assert(h.buf[woff] == tl0[woff], "C05 sha256_write split lemma (c): old tail stays when no block completes");
+        else __CPROVER_assert(h.buf[woff] == d[nb * 64 + woff - r0], "C05 sha256_write split lemma (c): tail as for one write of a||b");
     }
     if (g_cw_hit && la % 64 != 0 && lb > 200 && wblk == 1) REACH("write2: unaligned split, block 1 delivered");
-    if (g_cw_hit && g_cw_call == 3 && wblk > 70) REACH("write2: four compression calls, watched block in the last");
+    if (g_cw_hit && wblk > 70 && la < 64) REACH("write2: watched block far in b");
     if (la == 0 && lb > 64) REACH("write2: empty first write");
-    if (la > 0 && la < 10 && lb > 0 && lb < 10 && b0 % 64 == 60 && woff < 5 && g_c_calls == 1) REACH("write2: block completed by the second write, tail from b");
+    if (la > 0 && la < 10 && lb > 0 && lb < 10 && b0 % 64 == 60 && woff < 5 && g_c_blocks == 1) REACH("write2: block completed by the second write, tail from b");
     REACH("write2 end");
 }
